@@ -21,6 +21,14 @@ CLAIMED = {
    technique="exhaustive delay-bounded schedule exploration of the implementation with an exact vector-clock happens-before race monitor on instrumented field accesses",
    text="Every pair and triple of {Shutdown, GetListener, RegisterInterface(new), RegisterInterface(duplicate)} is issued from separate threads after the serving call (Listen and DoListen, with and without idle timeout) has been entered, together with 0-3 client connections; all interleavings up to the delay bound are executed on the real code, every field access of Service/ctxio.Conn state is a scheduling point and an event of a vector-clock monitor; a violation is a pair of conflicting accesses unordered by happens-before in some explored schedule. No sampling: the claim is 'no explored schedule contains an HB-race on instrumented state'.",
    note="Sees only instrumented accesses (fields of structs declared in varlink/ctxio that are written after construction, pointer-field method calls such as the bufio.Reader, package variables); trusts the listed happens-before edges to be complete for sync.Mutex/WaitGroup, buffered channels, context, net.Conn. Go's own race detector is not used to decide."),
+ "C01": dict(engine=A, design="§3 C01",
+   technique="stateless model checking of the implementation: exhaustive enumeration of call scripts x handler reply scripts x request segmentations on 1-3 connections, each explored under all schedules up to a delay bound, against a sequential per-connection reference model",
+   text="All call sequences of length <=2 (thorough: <=3 over a sub-alphabet) over 70 call kinds (5 flag sets x {10 handler reply scripts on a registered interface, unknown interface, no interface, GetInfo, unknown built-in method}) are sent by a raw client in one write (with schedule deviations), split at byte offsets, and one byte per write; two and three connections with collision-forcing scripts are explored under all interleavings up to the delay bound. Per connection the frames on the wire and the handler's log of reply attempts must equal a 60-line sequential reference model of that connection alone; at most one handler is active per connection; the service closes the connection after EOF or a handler error.",
+   note="The reference model is a restatement of the property text; clients half-close so reply writes cannot fail (peer loss is C10's). Trusts vnet and the scheduling-point set as for C14."),
+ "C10": dict(engine=A, design="§3 C10",
+   technique="stateless model checking of the implementation with exhaustive fault enumeration: frame-kind sequences x client abort at every byte offset x 3 ways of going away x reply-write failures, with a concurrent probe connection, under all schedules up to a delay bound at frame boundaries",
+   text="For every sequence of <=2 (thorough <=3) frames over 20 frame kinds and an optional unterminated tail the client stops after every byte offset and half-closes, closes or aborts; additionally the n-th reply write fails. A probe connection performs three calls concurrently and a Shutdown follows. Oracle: no panic; the victim's replies and dispatch log equal (half-close) or are a prefix of (peer gone) the reference computed from the complete, well-shaped frames before the first offending one; the probe gets exactly its replies; afterwards no handler thread is left, the connection count is 0, every accepted connection was closed by the service and the serving call returns.",
+   note="classifyCall restates 'of the call's shape'; vnet's abort/EPIPE semantics are assumed to match a kernel socket's; schedule deviations only at frame-boundary offsets (other offsets run the default schedule)."),
 }
 
 NOT_YET = "check not built yet (work in progress; see DESIGN.md for the plan)"
